@@ -365,3 +365,44 @@ def check(ctx):
     # delivery is restarted for it unconditionally, else its checkpoints do not raise and its operations take effect (shared with C03/R03-i)
     from .walkers import join_restarts
     join_restarts(ctx, "R08-d", ("AsyncIOBackend.run_async_from_thread.task_wrapper",), 1)
+
+    # ---- R08-e the fast_acquire exemption is opt-in: the flag is False unless the *user* passed it.  Every parameter `fast_acquire`
+    # defaults to False (or has no default), every call that passes the keyword forwards the caller's own parameter (or the field that
+    # stores it), and the field is written only from the parameter.  (functools' cache lock derives it from the documented
+    # `always_checkpoint` option of lru_cache - frozen instance below.)
+    FROZEN = {("functools.py", "not self._always_checkpoint"): "lru_cache(always_checkpoint=...) is the user's documented choice for the cache's internal lock"}
+    n_par = n_kw = n_wr = 0
+    for f_ in ctx.repo.all_funcs:
+        if f_.module.endswith("_trio.py"):
+            continue
+        a_ = f_.node.args
+        pos_ = a_.posonlyargs + a_.args
+        dflt = dict(zip([x.arg for x in pos_[len(pos_) - len(a_.defaults):]], a_.defaults))
+        dflt.update({k.arg: d for k, d in zip(a_.kwonlyargs, a_.kw_defaults) if d is not None})
+        params = {x.arg for x in pos_ + a_.kwonlyargs}
+        if "fast_acquire" in params:
+            n_par += 1
+            d_ = dflt.get("fast_acquire")
+            ok = d_ is None or (isinstance(d_, ast.Constant) and d_.value is False)
+            ctx.ob("R08-e", f_, "a `fast_acquire` parameter does not default to True", ok, node=f_.node, by=("default",),
+                   detail="" if ok else f"`fast_acquire={norm(d_)}` by default: an uncontended acquire no longer yields although the user did not opt out")
+        for n_ in own_walk(f_.node):
+            if isinstance(n_, ast.Call):
+                for k_ in n_.keywords:
+                    if k_.arg == "fast_acquire":
+                        n_kw += 1
+                        v_ = norm(k_.value)
+                        ok = (v_ == "fast_acquire" and "fast_acquire" in params) or v_ == "self._fast_acquire" or any(
+                            f_.module.endswith(m_) and v_ == e_ for (m_, e_) in FROZEN)
+                        ctx.ob("R08-e", f_, "a call passes on the fast_acquire flag it was given", ok, node=n_, by=(v_,),
+                               detail="" if ok else f"`{norm(n_)}` passes `fast_acquire={v_}`: a primitive the user did not configure for fast "
+                                                    "acquisition skips the yield of an uncontended acquire")
+            if isinstance(n_, ast.Assign) and any(norm(t_) == "self._fast_acquire" for t_ in n_.targets):
+                n_wr += 1
+                ok = norm(n_.value) == "fast_acquire" and "fast_acquire" in params
+                ctx.ob("R08-e", f_, "`_fast_acquire` stores the parameter", ok, node=n_, by=(norm(n_.value),),
+                       detail="" if ok else f"`{norm(n_)}` does not store the caller's flag")
+    ctx.floor("R08-e", "functions with a fast_acquire parameter", n_par, 8)
+    ctx.floor("R08-e", "calls passing fast_acquire", n_kw, 6)
+    ctx.floor("R08-e", "writers of _fast_acquire", n_wr, 4)
+    # a primitive built internally without the keyword gets the default (False): nothing to check there beyond the defaults above
